@@ -82,6 +82,13 @@ def main():
         if 'compile' in pre:
             print(json.dumps({'error': 'namesake spec does not compile: %s' % pre['compile']}))
             return
+    if job['history'] == 'after-sibling':
+        # another spec with the SAME namespace names but different content first (a cache keyed by a namespace or type name
+        # would be primed with the sibling's answer)
+        pre, _ = generate(job['sibling'], None, root, 's', job.get('args'))
+        if 'compile' in pre:
+            print(json.dumps({'error': 'sibling spec does not compile: %s' % pre['compile']}))
+            return
     if job['history'] == 'after-other-options':
         generate(job['specs'], job.get('whitelist'), root, 'o', job.get('pre_args'))
     ISOLATED[0] = job['history'] == 'isolated'
